@@ -35,7 +35,7 @@ META = {
 PROFILE = {"n_states": (2, 5), "n_events": (1, 3), "extra_transitions": (1, 5), "p_multi_event": 0.25,
            "p_guard": 0.45, "p_validator": 0.12, "p_conv": 0.22, "p_inline": 0.3, "p_deco": 0.12,
            "providers": ["sm", "model", "l0"], "guard_kinds": ["method", "method", "method", "prop", "attr"],
-           "yields": 3}
+           "yields": 3, "p_sigdeco": 0.2}
 
 
 def asyncify(rng, spec, mode):
